@@ -10,6 +10,7 @@
 import AgpTpf.Model.Lookup
 import AgpTpf.Model.Fasta
 import AgpTpf.Gen.Kernels
+import AgpTpf.Proofs.SeekChk
 namespace AgpTpf.Kernels
 open AgpTpf
 
@@ -174,6 +175,9 @@ theorem sequence_bytes_plan_eq (file : Bytes) (info : FastaInfo) (s e : Int) (h0
           ((readAt file (info.fileOffset + pyMod (s - 1) info.rpl + info.mll * pyDiv (s - 1) info.rpl)
             (info.rpl - pyMod (s - 1) info.rpl)).length : Int) + (info.mll - info.rpl) < 0) := by omega
       simp only [hpos1, if_false]
+      -- `rpl ≤ mll`: no relative seek of the whole-lines loop can go negative, the checked loop is the unchecked one
+      rw [readWholeLinesChk_nonneg file info.rpl (info.mll - info.rpl) hleb _ _ _ (Int.not_lt.mp hpos1)]
+      simp only []
       obtain ⟨hw, _⟩ := runPlan_wholeLines file info.rpl (info.mll - info.rpl) hleb
         (if decide (pyMod e info.rpl ≠ 0) = true then [Gen.K.IOp.read (pyMod e info.rpl)] else [])
         ((if pyMod e info.rpl = 0 then pyDiv (e - 1) info.rpl else pyDiv (e - 1) info.rpl - 1) - pyDiv (s - 1) info.rpl).toNat
